@@ -58,7 +58,7 @@ hook_commits = [l.split()[0] for l in hooks if l.split(' ', 1)[1].startswith('ve
 
 m = {
     "version": 1,
-    "setup_cmd": "cd /verif/harness && cp /repo/go.sum go.sum && %s go build -tags verif -o bin/vharness ./cmd/vharness && %s go build -tags verif -race -o bin/vharness-race ./cmd/vharness" % (GO, GO),
+    "setup_cmd": "cd /verif/harness && cp /repo/go.sum go.sum && %s go build -tags verif -o bin/vharness ./cmd/vharness && %s go build -tags verif -race -o bin/vharness-race ./cmd/vharness && %s go test -count=1 ./model/" % (GO, GO, GO),
     "hooks": {
         "guard": "verif",
         "enable": "go build -tags verif (internal/verifhook/hooks_on.go, verif_export.go files; without the tag the hook calls are empty inlined stubs)",
